@@ -232,3 +232,117 @@ func ruleDIFFOPERANDS(c *Ctx) {
 		c.add(rule, "count:", token.NoPos, CountDropped, true, "only %d operands of diff.LineDiff found in non-test callers (writer.Write and dump.Diff, two each)", n)
 	}
 }
+
+// AGREE(scan-mode): lex.Compile parses every pattern with CharsetOptions{ScanBytes: scanBytes}
+// (one symbol per byte, or per rune) and the scanners read Tables.ScanBytes to decide how to
+// step through the input. The two agree only if the field is the parameter itself: a flag that is
+// "optimised away" for some tables (ASCII-only symbol maps, say) makes Tables.Scan consume a
+// whole rune per step of a DFA that was built, and is packed by shiftdfa, for bytes.
+func ruleSCANMODE(c *Ctx) {
+	const rule = "AGREE(scan-mode)"
+	key := "lex.Compile:Tables.ScanBytes"
+	f := c.SSAFunc("lex", "Compile")
+	if f == nil {
+		c.Lost(rule, key, "function not found")
+		return
+	}
+	n := 0
+	for _, b := range f.Blocks {
+		for _, ins := range b.Instrs {
+			st, ok := ins.(*ssa.Store)
+			if !ok {
+				continue
+			}
+			fa, ok := st.Addr.(*ssa.FieldAddr)
+			if !ok || fieldName(fa.X.Type(), fa.Field) != "ScanBytes" || !isNamedType(fa.X.Type(), "lex", "Tables") {
+				continue
+			}
+			n++
+			if p, ok := stripConv(st.Val).(*ssa.Parameter); ok && p.Name() == "scanBytes" {
+				c.Ok(rule, key, st.Pos(), "Tables.ScanBytes is the scanBytes parameter the patterns were parsed with")
+			} else {
+				c.Bad(rule, key, st.Pos(), "Tables.ScanBytes receives %s, not the scanBytes parameter the patterns were parsed with: for some tables Scan steps by runes through a DFA built (and packed by shiftdfa) for bytes", vpath(st.Val))
+			}
+		}
+	}
+	if n == 0 {
+		c.Lost(rule, key, "no store into Tables.ScanBytes found in lex.Compile")
+	}
+}
+
+// GUARD(rewritten-key-free): when entries of one map are copied into another under a rewritten
+// key (convertPart strips the opt suffix from implied aliases when aliasIncludesOptSuffix is off),
+// the rewrite is not injective: "Fooopt" and an explicitly spelled "Foo" meet. The rewritten key
+// may only be used on an edge where a lookup of that very key found nothing; otherwise whichever
+// entry is copied last wins and $Foo binds to the stack slot of Fooopt.
+func ruleREWRITTENKEY(c *Ctx) {
+	const rule = "GUARD(rewritten-key-free)"
+	n := 0
+	ord := map[string]int{}
+	for _, f := range c.SrcFuncs("compiler") {
+		for _, b := range f.Blocks {
+			for _, ins := range b.Instrs {
+				mu, ok := ins.(*ssa.MapUpdate)
+				if !ok {
+					continue
+				}
+				// only copies: the update runs once per entry of another collection
+				if innermostLoop(naturalLoops(f), b) == nil {
+					continue
+				}
+				type edge struct {
+					v     ssa.Value
+					conds []gcond
+				}
+				var edges []edge
+				if ph, ok := mu.Key.(*ssa.Phi); ok {
+					for i, e := range ph.Edges {
+						edges = append(edges, edge{e, edgeConds(ph.Block().Preds[i], ph.Block())})
+					}
+				} else {
+					edges = append(edges, edge{mu.Key, governing(b)})
+				}
+				for _, e := range edges {
+					call, ok := e.v.(*ssa.Call)
+					if !ok {
+						continue
+					}
+					g := call.Call.StaticCallee()
+					if g == nil || g.Pkg == nil || g.Pkg.Pkg.Path() != "strings" || (g.Name() != "TrimSuffix" && g.Name() != "TrimPrefix") {
+						continue
+					}
+					n++
+					key := ordKey(ord, ssaFuncKey(f)+":"+normalizePhi(vpath(mu.Map)))
+					free := false
+					for _, gc := range flattenConds(e.conds) {
+						bo, ok := gc.V.(*ssa.BinOp)
+						if !ok {
+							continue
+						}
+						for _, side := range []ssa.Value{bo.X, bo.Y} {
+							var lk *ssa.Lookup
+							switch x := side.(type) {
+							case *ssa.Lookup:
+								lk = x
+							case *ssa.Extract:
+								lk, _ = x.Tuple.(*ssa.Lookup)
+							}
+							if lk != nil && lk.Index == e.v {
+								free = true
+							}
+						}
+						_ = gc
+					}
+					if free {
+						c.Ok(rule, key, mu.Pos(), "the rewritten key %s is used only after a lookup of that key found nothing", vpath(e.v))
+					} else {
+						c.Bad(rule, key, mu.Pos(), "entries are copied under the rewritten key %s without testing that the key is free: with aliasIncludesOptSuffix = false a rule that mentions both Foo and Fooopt binds $Foo to whichever entry is copied last (the slot of Fooopt)", vpath(e.v))
+					}
+				}
+			}
+		}
+	}
+	if n < 1 {
+		c.add(rule, "count:", token.NoPos, CountDropped, true, "no map copy under a rewritten key found (syntaxLoader.convertPart confirmed by hand)")
+	}
+}
